@@ -1,7 +1,7 @@
 (* Props/C01.v — property theorems only. *)
 From Coq Require Import List NArith ZArith.
 From N0 Require Import Base.PyStr Base.PyVal Xpath.Dec Xpath.DecProofs Xpath.Token Xpath.TokenProofs
-  Xpath.Find Xpath.FindProofs Xpath.Write Xpath.SpecProofs Xpath.WalkProofs Xpath.TokenizeProofs Xpath.EnumProofs.
+  Xpath.Find Xpath.FindProofs Xpath.Write Xpath.SpecProofs Xpath.WalkProofs Xpath.TokenizeProofs Xpath.EnumProofs Xpath.ListProofs.
 Import ListNotations.
 
 (* Every spelling of a node path (one token per step or name[index] tokens; every
@@ -92,3 +92,15 @@ Theorem C01_nonvacuous :
                    spells root p (tokenize x) /\ resolve root p = Some (Leaf (SInt 7)).
 Proof. exact c01_example. Qed.
 Print Assumptions C01_nonvacuous.
+
+(* The same holds for list-rooted containers addressed with a leading index: index steps
+   through nested lists (every spelling that evaluates to the index), then the dict-rooted
+   walk below the first dictionary (n0dict or plain). *)
+Theorem C01_list_rooted_resolves : forall root x p v,
+  has_path_char x = true -> no_qmark x -> lwalk root (tokenize x) p v ->
+  resolve root p = Some v /\
+  list_get (fuel_for root x) root x true true = Ok (root, LVal v) /\
+  list_get (fuel_for root x) root x false true = Ok (root, LVal v) /\
+  list_first (fuel_for root x) root x = Ok (root, unwrap_single (LVal v)).
+Proof. exact list_lookup_lwalk. Qed.
+Print Assumptions C01_list_rooted_resolves.
